@@ -39,8 +39,32 @@ u = 2⁻⁵³ — the deviation is below 10⁻¹² s at beat 100 -/
 def sampleTD : TimingData :=
   { bpms := [(0, 120), (1, 240)], stops := [(2, 1/2)], delays := [(2, 1/4)], warps := [(0, 3)], offset := -9/1000 }
 
-example : C11.Dom sampleTD := sampleTD_dom
+example : C11.Dom sampleTD := by
+  have g0 : onGrid 0 := ⟨0, by norm_num⟩
+  have g1 : onGrid 1 := ⟨48, by rw [ticks_eq]; norm_num⟩
+  have g2 : onGrid 2 := ⟨96, by rw [ticks_eq]; norm_num⟩
+  have hr : roundToTick 3 = 3 := roundToTick_three
+  constructor
+  · simp [sampleTD]
+  · simp [sampleTD]
+  · intro e he; simp [sampleTD] at he; rcases he with rfl | rfl <;> norm_num
+  · simp [sampleTD]
+  · intro e he; simp [sampleTD] at he; rcases he with rfl | rfl
+    · exact ⟨le_refl _, g0⟩
+    · exact ⟨by norm_num, g1⟩
+  · intro e he; simp [sampleTD] at he; subst he; norm_num
+  · simp [sampleTD]
+  · intro e he; simp [sampleTD] at he; subst he; exact ⟨by norm_num, g2⟩
+  · intro e he; simp [sampleTD] at he; subst he; norm_num
+  · simp [sampleTD]
+  · intro e he; simp [sampleTD] at he; subst he; exact ⟨by norm_num, g2⟩
+  · intro e he; simp [sampleTD] at he; subst he; rw [hr]; norm_num
+  · simp [sampleTD]
+  · intro e he; simp [sampleTD] at he; subst he; exact ⟨le_refl _, g0⟩
 
-example : errTimeAt (1 / 9007199254740992) sampleTD 100 .stop < 1 / 1000000000000 := by decide +kernel
+example : errTimeAt (1 / 9007199254740992) sampleTD 100 .stop < 1 / 1000000000000 := by
+  have hev : events sampleTD = _ := events_sampleF
+  simp only [errTimeAt, mkEngine, errStates, states, hev]
+  decide +kernel
 
 end Simfile.C11F
